@@ -16,6 +16,7 @@ ExpSpecs(B, c) ==
      CASE keep[i].k = "Default" -> [k |-> "Default", e |-> CanonVal(keep[i].v)]
        [] keep[i].k = "Check" -> [k |-> "Check", e |-> Canon(B, keep[i].e)]
        [] keep[i].k = "Comment" -> [k |-> "Comment", s |-> keep[i].s]
+       [] keep[i].k = "Generated" -> [k |-> "Generated", e |-> Canon(B, keep[i].e), stored |-> keep[i].stored]
        [] OTHER -> [k |-> keep[i].k]]
 ColumnReasons(B, c, p) ==
   IF p.kind # "column" THEN {"column_expected:" \o c.name}
@@ -94,6 +95,13 @@ DdlReasons(B, d, sql) ==
                 \cup (IF p.cols = IdxColsExp(d.cols) THEN {} ELSE {"index_columns_differ"})
                 \cup (IF p.unique = ("unique" \in DOMAIN d /\ d.unique) THEN {} ELSE {"index_uniqueness_differs"})
                 \cup (IF p.if_not_exists = ("if_not_exists" \in DOMAIN d /\ d.if_not_exists /\ B = "pg") THEN {} ELSE {"if_not_exists_differs"})
+                \cup (LET ty == IF "index_type" \in DOMAIN d THEN d.index_type ELSE ""
+                          wantUsing == CASE ty = "BTree" -> "BTREE" [] ty = "Hash" -> "HASH" [] ty = "FullText" -> (IF B = "pg" THEN "GIN" ELSE "") [] OTHER -> ""
+                      IN (IF p.using = wantUsing THEN {} ELSE {"index_type_differs"})
+                         \cup (IF p.fulltext = (B = "mysql" /\ ty = "FullText") THEN {} ELSE {"index_type_differs"}))
+                \cup (IF p.include = (IF "include" \in DOMAIN d THEN d.include ELSE <<>>) THEN {} ELSE {"index_include_columns_differ"})
+                \cup (IF p.nnd = ("nulls_not_distinct" \in DOMAIN d /\ d.nulls_not_distinct) THEN {} ELSE {"index_nulls_not_distinct_differs"})
+                \cup (IF p.where = (IF "where" \in DOMAIN d THEN Canon(B, d.where) ELSE [k |-> "none"]) THEN {} ELSE {"index_predicate_differs"})
       [] d.stmt = "index_drop" -> IF p.kind = "drop_index" /\ p.name = d.name /\ (B = "pg" \/ p.table = <<d.table>>) THEN {} ELSE {"drop_index_differs"}
       [] d.stmt = "fk_create" -> IF p.kind = "alter_table" /\ p.name = <<d.from_table>> /\ Len(p.actions) = 1 /\ p.actions[1] = [k |-> "add_constraint", c |-> FkElem(d)] THEN {} ELSE {"foreign_key_differs"}
       [] d.stmt = "fk_drop" -> IF p.kind = "alter_table" /\ p.name = <<d.table>> /\ p.actions = <<[k |-> "drop_fk", name |-> d.name]>> THEN {} ELSE {"drop_foreign_key_differs"}
